@@ -3,14 +3,16 @@ Driver for C24 (bucket-routed storages are isolated). Trace of one case
 (harness/cmd/verifharness/c24.go):
 
   cfg n=<storages> map=<b>:<idx>,…|~ default=<idx>
-  op <name> <args…>           s3hist op lines, "op uppc … svid=<v> range=<a>-<b>|~", "op dels <b> <keys>"
+  op <name> <args…>           s3hist op lines, "op uppc … svid=<v> range=<a>-<b>|~", "op dels <b> <keys>";
+                              cp / uppc may carry copy-source preconditions cim= cinm= (~|*|src|other),
+                              cims= cius= (ms relative to the source's Last-Modified second)
   res ok … | res err <Kind> | res panic <hex>
   calls <idx>:<Method>:<bucket>[><bucket>] … | ~     calls received by the backing storages
   back <idx> <names|~>        after "op lsb": ListBuckets of every backing storage, asked directly
-  xcopy dst|twin <fields>     after a successful cross-storage CopyObject
+  xcopy dst|twin <fields>     after a cross-storage CopyObject (ok, or `err=<Kind>` for a source-side failure)
   xpart dst|twin <fields>     after a successful cross-storage UploadPartCopy
 
-TIE: `Routing.rstep Fixes.code Quirks.code` on the same calls: the caller's result
+TIE: `Routing.rstepIf Fixes.code Quirks.code` on the same calls: the caller's result
 (`S3Driver.compareOut`; version ids and upload ids are global first-seen ordinals in the trace and
 per-storage ordinals in the model — translated here) and the set of storages called.
 JUDGE (on the trace alone): every call a backing storage received names only buckets routed to that
@@ -40,6 +42,20 @@ def parseXOp (c : Ctx) (line : String) : Option XOp :=
     some (.partCopy sb sk (parseVid (kvOf t "svid")) db dk u.toNat! n.toNat! (parseRange (kvOf t "range")))
   | ["op", "dels", b, ks] => some (.delMany b (if ks == "~" then [] else ks.splitOn ","))
   | _ => (parseOp c line).map .base
+
+def parseTagCond (tok : String) : TagCond :=
+  if tok == "~" then .none else if tok == "*" then .star else if tok == "src" then .same else .other
+
+def parseMs (tok : String) : Option Int :=
+  if tok == "~" then none
+  else if tok.startsWith "-" then some (-(Int.ofNat (tok.drop 1).toString.toNat!))
+  else some (Int.ofNat tok.toNat!)
+
+/-- The copy-source preconditions of a `cp` / `uppc` line (absent tokens = no condition). -/
+def parseCond (line : String) : CopyCond :=
+  let t := tokens line
+  { im := parseTagCond (kvOf t "cim"), inm := parseTagCond (kvOf t "cinm"),
+    ims := parseMs (kvOf t "cims"), ius := parseMs (kvOf t "cius") }
 
 def parseCfg (line : String) : Cfg × Nat :=
   let t := tokens line
@@ -182,6 +198,9 @@ def judgeCase (_k : Nat) (lines : List String) : Verdict := Id.run do
   let mut nSame := 0
   let mut nCalls := 0
   let mut nLsb := 0
+  let mut nCond := 0
+  let mut nCondFail := 0
+  let mut nCondEq := 0
   for st in steps do
     let name := (tokens st.op).getD 1 "?"
     let addVio (vio : List (String × String)) (sig msg : String) : List (String × String) :=
@@ -193,7 +212,8 @@ def judgeCase (_k : Nat) (lines : List String) : Verdict := Id.run do
     | some gop =>
       let op := localize cfg gv gu gop
       -- ---------------- TIE
-      let (ss', ro) := rstep Fixes.code Quirks.code cfg ss op
+      let cond := parseCond st.op
+      let (ss', ro) := rstepIf Fixes.code Quirks.code cfg ss cond op
       let ti := (targets cfg op).headD cfg.dflt
       -- ids created by this call in the target storage get the next global ordinals
       let before := getS ss ti
@@ -248,7 +268,11 @@ def judgeCase (_k : Nat) (lines : List String) : Verdict := Id.run do
       match st.xcopy.find? (·.1 == "dst"), st.xcopy.find? (·.1 == "twin") with
       | some (_, d), some (_, t) =>
         if kvOf d "err" != "~" || kvOf t "err" != "~" then
-          vio := addVio vio "C24.cross-copy-differs.outcome" s!"dst={String.intercalate "," d};twin={String.intercalate "," t}"
+          -- the outcome itself (error kind, e.g. PreconditionFailed of a copy-source condition) must agree
+          if kvOf d "err" != kvOf t "err" then
+            let why := if !cond.isNone then ".copy-source-conditions" else ""
+            vio := addVio vio s!"C24.cross-copy-differs.outcome{why}"
+              s!"cross-storage:{if kvOf d "err" == "~" then "ok" else kvOf d "err"};same-storage:{if kvOf t "err" == "~" then "ok" else kvOf t "err"}"
         else
           for (fname, keys) in copyFields do
             if keys.any fun k => kvOf d k != kvOf t k then
@@ -260,9 +284,16 @@ def judgeCase (_k : Nat) (lines : List String) : Verdict := Id.run do
       -- (6) cross-storage UploadPartCopy = same-storage twin
       match st.xpart.find? (·.1 == "dst"), st.xpart.find? (·.1 == "twin") with
       | some (_, d), some (_, t) =>
-        if d != t then vio := addVio vio "C24.cross-part-copy-differs" s!"destination-part={d.replace " " ","};same-storage-part={t.replace " " ","}"
+        if d != t then
+          let outcome := d.startsWith "err=" || t.startsWith "err="
+          let why := if outcome && !cond.isNone then ".outcome.copy-source-conditions" else if outcome then ".outcome" else ""
+          vio := addVio vio s!"C24.cross-part-copy-differs{why}" s!"destination-part={d.replace " " ","};same-storage-part={t.replace " " ","}"
       | none, none => pure ()
       | _, _ => div := div ++ [s!"op{idx}:incomplete-xpart-observation"]
+      if !cond.isNone then
+        nCond := nCond + 1
+        if st.res.startsWith "res err PreconditionFailed" then nCondFail := nCondFail + 1
+        if cond.ims == some 0 || cond.ius == some 0 then nCondEq := nCondEq + 1
       if st.res.startsWith "res ok" then nOk := nOk + 1 else nErr := nErr + 1
       stats := addStats stats [("op_" ++ name, 1)]
       if st.res.startsWith "res err" then stats := addStats stats [("err_" ++ (tokens st.res).getD 2 "?", 1)]
@@ -273,6 +304,8 @@ def judgeCase (_k : Nat) (lines : List String) : Verdict := Id.run do
     fingerprint := fpLines (((lines.find? (·.startsWith "cfg")).getD "") :: steps.map (·.op)),
     stats := stats ++ [("ops", steps.length), ("ok", nOk), ("err", nErr), ("cross_storage_copies_ok", nCross),
                        ("same_storage_copies_ok", nSame), ("backing_calls_judged", nCalls), ("list_buckets", nLsb),
+                       ("copies_with_source_conditions", nCond), ("source_conditions_failed", nCondFail),
+                       ("time_condition_equal_to_last_modified", nCondEq),
                        (if sharedCfg then "cfg_storage_listed_twice" else "cfg_storages_distinct", 1)],
     samples := [((lines.find? (·.startsWith "cfg")).getD "") ++ " ; " ++ String.intercalate " ; " ((steps.take 6).map (·.op))]
   }
